@@ -440,6 +440,11 @@ int main(int argc, char **argv) {
     std::vector<int> tiny20(g_tiny.begin(), g_tiny.begin() + std::min<size_t>(g_tiny.size(), 20));
     add_space(R, "byte255_tiny20", tiny20, [](const Entry &e) { return (uint64_t)e.bytes.size() * 255; }, byte255, mode0, true, false);
     add_space(R, "byte255_all", all_small, [](const Entry &e) { return (uint64_t)e.bytes.size() * 255; }, byte255, modes_q, false, true);
+    // raw (not entropy coded) value blocks: a width byte with trailing data behind it - the full byte alphabet in the quick tier too
+    std::vector<int> raw_storage;
+    for (int i : all_gen)
+      if (g_corpus[i].name.compare(0, 2, "G:") == 0 && g_corpus[i].bytes.size() <= 400) raw_storage.push_back(i);
+    add_space(R, "byte255_raw_storage", raw_storage, [](const Entry &e) { return (uint64_t)e.bytes.size() * 255; }, byte255, mode0, true, false);
   }
   Mutator u32 = [](const Entry &e, uint64_t k, Bytes *out, std::string *op) {
     const size_t i = k / 8;
